@@ -18,7 +18,7 @@ var c05Weights = core.OpWeights{
 }
 
 func genC05(t *rapid.T, tier string) HistCase {
-	return genHist(t, tier, core.GenOpts{Marshalers: []string{"json", "json", "custom", "customz"}, BigOneIn: 12}, c05Weights, 60, 120, 40, 2)
+	return genHist(t, tier, core.GenOpts{Marshalers: []string{"json", "json", "custom", "customz"}, BigOneIn: 12, Vals: core.ValKindsWithFloat}, c05Weights, 60, 120, 40, 2)
 }
 
 func runC05(c HistCase, o *run.Obs) error {
